@@ -290,7 +290,34 @@ func c06Orders(c c06Case, frame []byte) (V, V) {
 	return Ls(io_...), Ls(so...)
 }
 
+// a bufiox.Writer that only counts (WriteBinary "may be a zero copy write": it keeps nothing): lets
+// Encode run over header infos of several GiB without that memory
+type c06CountingWriter struct{ n int }
+
+func (w *c06CountingWriter) Malloc(n int) ([]byte, error) { w.n += n; return make([]byte, n), nil }
+func (w *c06CountingWriter) WriteBinary(bs []byte) (int, error) {
+	w.n += len(bs)
+	return len(bs), nil
+}
+func (w *c06CountingWriter) WrittenLen() int { return w.n }
+func (w *c06CountingWriter) Flush() error    { w.n = 0; return nil }
+
+// (9 nkeys vlen): Encode of nkeys int keys that all carry ONE shared value of vlen bytes -> (failed written)
+func c06Huge(nk, vl int) V {
+	val := string(make([]byte, vl))
+	p := ttheader.EncodeParam{SeqID: 1, ProtocolID: ttheader.ProtocolIDThriftBinary, IntInfo: map[uint16]string{}}
+	for k := 0; k < nk; k++ {
+		p.IntInfo[uint16(k)] = val
+	}
+	w := &c06CountingWriter{}
+	_, err := ttheader.Encode(context.Background(), p, w)
+	return Ls(Bo(err != nil), I(w.n))
+}
+
 func c06Run(in V) V {
+	if a := AsList(in); len(a) == 3 && AsInt(a[0]) == 9 {
+		return c06Huge(AsInt(a[1]), AsInt(a[2]))
+	}
 	c := c06Parse(in)
 	ctx := context.Background()
 	mk := func() ttheader.EncodeParam {
@@ -463,11 +490,19 @@ func c06RawSize(m c06Maps) int {
 	return s
 }
 
+func c06HugeCases(g *Gen) {
+	// header infos around 64 KiB, 2^31, 2^32 and 2^33 bytes: Encode must refuse every one above 65536
+	for _, c := range [][2]int{{1, 65000}, {2, 40000}, {16, 4091}, {16, 4092}, {4096, 1 << 19}, {4096, 1<<20 - 4}, {4096, 1 << 20}, {4096, 1<<20 + 1}, {8192, 1 << 20}, {65536, 65532}, {65535, 65533}} {
+		g.Add("huge-info", Ls(I(9), I(c[0]), I(c[1])))
+	}
+}
+
 func init() {
 	allowed := []int{0, 3, 4, 0x10, 0x11}
 	register("C06", &Prop{
 		Run: c06Run,
 		Gen: func(g *Gen) {
+			c06HugeCases(g)
 			small := func() int { return []int{0, 1, 2, 3, 4, 5, 7, 8, 13}[g.R.Intn(9)] }
 			pay := func(n int) V { return PatV(n%251, n) }
 			// 1. flag / sequence-id boundary values, every supported protocol id
